@@ -41,7 +41,7 @@ REQUIRED = [
 
 
 def plan(tier):
-    return 3000 if tier == "quick" else 60000
+    return 6000 if tier == "quick" else 60000
 
 
 def budget(tier):
